@@ -330,6 +330,10 @@ def body(run):
         run.require(f"triple:libpass.{n}", 3)
     run.require("near_miss_verifies", 1000)
     run.require("equivalent_confirmed", 20)
+    if run.tier == "thorough":
+        # the repository's own test-suite as one more workload, monitors on (vlib/ambient_plugin.py)
+        from vlib.ambient import suite_under_monitor
+        suite_under_monitor(run, min_events={"C01-verify": 5000})
     run.assumptions += ["documented equivalences are those of vlib/equiv.py (truncation limits in bytes, 7-bit DES keys, case folding of lmhash/mssql2000/oracle10, mysql323 blanks, SASLprep for scram, $2$ key cycling)",
                         "NUL bytes are not generated here (C05 covers them)"]
 
